@@ -252,6 +252,7 @@ def facts() -> typing.Dict[str, bool]:
     sub_ptr, f['cpp_subspan_clamped'] = seqs.subspan_ptr(csup)
     _SEQS.clear()
     _SEQS['subspan_ptr'] = sub_ptr
+    _SEQS['setzeros'] = seqs.setzeros_accesses(csup)
     _SEQS.update({'vla': seqs.coq_vla(seqs.vla_paths(macro(cdes, '_deserialize_variable_length_array').split('%}', 1)[1])), 'union': seqs.union_seqs(uni),
                   'cev': seqs.c_event_seqs(macro, ser, des)})
     return f
@@ -281,6 +282,7 @@ def gen_c04() -> typing.Tuple[bool, str]:
     lines.append('\n(* statement sequences, in textual order; interpreted / decided on the Coq side *)\n')
     lines.append('Definition tpl_cpp_vla_paths : list (list vstmt) :=\n  %s.\n' % _SEQS['vla'])
     lines.append('Definition tpl_cpp_subspan_ptr : sexp := %s.\n' % _SEQS['subspan_ptr'])
+    lines.append('Definition tpl_cpp_setzeros_accesses : list zacc := %s.\n' % _SEQS['setzeros'])
     lines.append('Definition tpl_union_emplace : list ustmt := %s.\n' % _SEQS['union']['emplace'])
     lines.append('Definition tpl_union_ctor : list cstmt := %s.\n' % _SEQS['union']['ctor'])
     lines.append('Definition tpl_union_dshape : dshape := %s.\n' % _SEQS['union']['dshape'])
